@@ -10,6 +10,7 @@ import json
 import random
 import re
 import traceback
+import zlib
 from collections import defaultdict
 from decimal import Decimal
 from typing import Any, Optional
@@ -357,6 +358,25 @@ def render_data(d: dict, shape, names: Names, side: str = "data") -> Any:
     return [render_data(x, shape, names, side) for x in d["xs"]]
 
 
+def with_missing(x: Any) -> Any:
+    """the same datum with every dict node an instance of a dict subclass that defines __missing__ (collections.defaultdict): a key
+    that is absent is absent - `key in d` is False, .get() misses - although d[key] would fabricate a value and insert it"""
+    from collections import defaultdict
+    if isinstance(x, dict):
+        return defaultdict(dict, {k: with_missing(v) for k, v in x.items()})
+    if isinstance(x, list):
+        return [with_missing(v) for v in x]
+    return x
+
+
+def plain_of(x: Any) -> Any:
+    if isinstance(x, dict):
+        return {k: plain_of(v) for k, v in x.items()}
+    if isinstance(x, list):
+        return [plain_of(v) for v in x]
+    return x
+
+
 def none_leaf_fields(d: dict, paths: list) -> list:
     """indices (1-based) of the fields whose leaf, found by following the field's path through the abstract datum, is the value None"""
     out = []
@@ -626,6 +646,23 @@ def run_program(case: dict, seed: int, names: Names, out: dict, kind=None) -> No
                             add("C04", "load_error_with_foreign_leaf", f"{dtname}: {datum!r} with user field loaders raising {STRICT_EXC[0].__name__}-like errors: "
                                 f"{type(exc).__name__} (a LoadError) carries {[x[1] for x in flat_model_errors(exc) if x[1].startswith('FOREIGN')][:2]}",
                                 {"exc": "user_loader_in_model"}, probe=probe["d"], dt=dtname)
+            if isinstance(datum, dict) and any(e["kind"] == "NoRequiredFields" for e in mo["errs"]):
+                # the same input as a mapping with __missing__: an absent required key is still absent, and loading does not write
+                # into the input
+                for dtname, loader in loaders.items():
+                    out["runs"] += 1
+                    dd = with_missing(datum)
+                    try:
+                        got = loader(dd)
+                        add("C03", "accepts_input_violating_layout", f"{dtname}: {datum!r} given as defaultdict loaded to {got!r}; documented errors "
+                            f"{mo['errs']}", {"mapping_with_missing": True}, probe=probe["d"], dt=dtname)
+                    except BaseException as e:  # noqa: BLE001
+                        if not isinstance(e, LoadError):
+                            add("C04", "foreign_exception_from_model_loader", f"{dtname}: {datum!r} given as defaultdict raised {type(e).__name__}",
+                                {"exc": type(e).__name__, "mapping_with_missing": True}, probe=probe["d"], dt=dtname)
+                    if plain_of(dd) != datum:
+                        add("C03", "loading_wrote_into_the_input", f"{dtname}: the input {datum!r} given as defaultdict is {plain_of(dd)!r} after loading",
+                            {"mapping_with_missing": True}, probe=probe["d"], dt=dtname)
             for dtname, loader in loaders.items():
                 out["runs"] += 1
                 del ctor_log[:]
@@ -1039,17 +1076,21 @@ def run_slices(ctx: Ctx, slices, max_overlays: dict, tables: Optional[list] = No
                 ln = len(line)
                 if line.startswith(b'"{\\"shape\\":'):
                     n_seen += 1
-                    if every == 1 or (n_seen + ctx.seed) % every == 0:
-                        spans.append((off, ln - 1))
+                    # TLC prints the cases in a worker-dependent order: select and order them by content, so that which programs are
+                    # replayed (every > 1) and which consecutive programs are paired as twins is the same in every run
+                    crc = zlib.crc32(line)
+                    if every == 1 or (crc + ctx.seed) % every == 0:
+                        spans.append((zlib.crc32(line.split(b'\\"ovs\\"', 1)[0]), crc, off, ln - 1))      # programs of one shape stay neighbours
                     if sl == "E" and twins and kinds is None:
                         case = json.loads(json.loads(line[:ln - 1].decode("utf-8")))
                         if len(case["shape"]) == 3 and case["ovs"]:
                             core = [case["shape"], [{**ov, "omit": None} for ov in case["ovs"]]]
                             siblings.setdefault(stable_hash(core), []).append((off, ln - 1))
                 off += ln
+        spans = [(o, n) for _, _, o, n in sorted(spans)]
         items = [(ctx.seed, str(res.out_path), spans[i:i + 20], tables, kinds) for i in range(0, len(spans), 20)]
         # programs that differ in omit_default only, paired as two locations of one outer model (run_twin)
-        pairs = [(g[i], g[j]) for g in siblings.values() for i in range(len(g)) for j in range(len(g)) if i != j][: 4000]
+        pairs = [(g[i], g[j]) for _, g in sorted(siblings.items()) for g in [sorted(g)] for i in range(len(g)) for j in range(len(g)) if i != j][: 4000]
         items += [(ctx.seed, str(res.out_path), [], tables, kinds, pairs[i:i + 25]) for i in range(0, len(pairs), 25)]
         machinery = []
         for o in pmap(_worker, items, chunk=1):
